@@ -332,6 +332,30 @@ pub fn record_topic(out: &mut Out, tier: &str, seed: u64) {
             }
         }
     }
+    // the prefix with ONE string inserted at each position (a scattered / non-contiguous "$share/"), the prefix after
+    // a leading level, the prefix twice (a share group literally named "$share"), and the prefix as a later level
+    for i in 0..=pre.len() {
+        for ins in ["x", "/", "é", "$", "d/", "$share/", "/x/"] {
+            let mut p: String = pre[..i].iter().collect();
+            p.push_str(ins);
+            p.extend(pre[i..].iter());
+            for tail in ["", "g", "g/t", "+", "g/+", "+/y", "#", "g/#", "x/y", "/", "g/"] {
+                all.push(format!("{p}{tail}"));
+            }
+        }
+    }
+    for lead in ["$SYS/cluster/shared/", "$SYS/brokers/+/share/", "$stats/home/area/", "a/$share/", "$SYS/share/"] {
+        for tail in ["", "+", "#", "g", "g/t", "x/y", "+/y"] {
+            all.push(format!("{lead}{tail}"));
+        }
+    }
+    // every ASCII character, every Latin-1 character and the characters of the next block (same low bytes as ASCII),
+    // alone, embedded, after a separator and inside a share group / shared filter
+    for c in (0u32..0x180).filter_map(char::from_u32) {
+        for ctx in ["{}", "a{}b", "a/{}", "$share/g{}/t", "$share/g/{}"] {
+            all.push(ctx.replace("{}", &c.to_string()));
+        }
+    }
     // characters that an escaping Display / Debug conversion would alter
     for sp in ["'", "\"", "\\", "\t", "\n", "\u{7f}", "\u{85}", "\u{301}", "\u{200b}", "\u{feff}", "\u{1}"] {
         for ctx in ["{}", "a{}b", "a/{}", "$share/g{}/x{}", "{}/+/#", "$SYS/{}"] {
@@ -342,6 +366,12 @@ pub fn record_topic(out: &mut Out, tier: &str, seed: u64) {
     all.dedup();
     for s in &all {
         topic_event(out, s, true);
+    }
+    // the largest strings a field can carry, through every packet field (deterministic: valid as name and as filter)
+    for n in [65533usize, 65534, 65535] {
+        topic_event(out, &"a".repeat(n), true);
+        topic_event(out, &format!("$share/g/{}", "a".repeat(n - 9)), true);
+        topic_event(out, &format!("{}é", "a".repeat(n - 2)), true);
     }
     // long strings around the 65,535-byte limit (no packets: a field cannot carry more than 65,535)
     let mut rng = Rng::new(seed ^ 0x70_71C);
@@ -384,6 +414,10 @@ pub fn record_topic(out: &mut Out, tier: &str, seed: u64) {
     let base = [
         "a", "b", "+", "#", "/", "a/b", "$share/a/b", "$share/b/x", "$share/ab/x", "$share/é/+", "$share/g/#",
         "$share/g//x", "$sys", "$SYS/x", "+/+", "a/#", "é", "€/x", "😀", "$share/€/é", "$share/a/+/b", "$", "$share",
+        // share groups / levels that are prefixes of one another and continue with a character below or above '/'
+        "$share/a-x/b", "$share/a$/b", "$share/a /b", "$share/a!/b", "$share/a./b", "$share/a0/b", "$share/a/", "$share/a//",
+        "$share/a/b/c", "$share/a/b-", "$share/a/b!", "a-", "a!", "a/", "a0", "a/b-", "a/b/", "a-/b", "$share/$share/x/y",
+        "$share/$share/x", "$share/ /x", "$share/a/ ", " ", "!", "$share/a/-", "$share/a-/+",
     ];
     for b in base {
         pool.push(b.to_string());
